@@ -575,8 +575,16 @@ def process_participation_flag_updates (s : State) : SM State :=
 (computed with the real library), keyed by the list of pubkeys. -/
 abbrev AggOracle := List Bytes → Option Bytes
 
+/-- `compute_shuffled_index(i % n, n, seed)` as a total function (0 where the spec asserts) -/
+def shuffledOf (cfg : Config) (n : Nat) (seed : Bytes) (i : Nat) : Nat :=
+  match compute_shuffled_index cfg (i % n) n seed with
+  | .ok j => j
+  | .error _ => 0
+
+def SYNC_FUEL : Nat := 100000
+
 /-- `get_next_sync_committee_indices`; the unbounded `while` runs on `fuel` candidate draws. -/
-def get_next_sync_committee_indices (cfg : Config) (s : State) (fuel : Nat := 100000) : SM (List Nat) := do
+def get_next_sync_committee_indices (cfg : Config) (s : State) (fuel : Nat := SYNC_FUEL) : SM (List Nat) := do
   let epoch := get_current_epoch cfg s + 1
   let MAX_RANDOM_BYTE := 2 ^ 8 - 1
   let active_validator_indices := (get_active_validator_indices s epoch).toArray
@@ -593,6 +601,9 @@ def get_next_sync_committee_indices (cfg : Config) (s : State) (fuel : Nat := 10
     if effective_balance * MAX_RANDOM_BYTE ≥ cfg.MAX_EFFECTIVE_BALANCE * random_byte then
       sync_committee_indices := sync_committee_indices.push candidate_index
   if sync_committee_indices.size < cfg.SYNC_COMMITTEE_SIZE then throw (.fuel "get_next_sync_committee_indices")
+  crossCheck (some sync_committee_indices.toList)
+    (sync_committee_indices_loop cfg s.validators (get_active_validator_indices s epoch) seed
+      (shuffledOf cfg active_validator_count seed) fuel 0 []) "sync committee indices"
   pure sync_committee_indices.toList
 
 def get_next_sync_committee (cfg : Config) (agg : AggOracle) (s : State) : SM SyncCommittee := do
@@ -605,10 +616,11 @@ def get_next_sync_committee (cfg : Config) (agg : AggOracle) (s : State) : SM Sy
 def process_sync_committee_updates (cfg : Config) (agg : AggOracle) (s : State) : SM State := do
   let next_epoch := get_current_epoch cfg s + 1
   if cfg.EPOCHS_PER_SYNC_COMMITTEE_PERIOD = 0 then invalid "division by zero"
-  if next_epoch % cfg.EPOCHS_PER_SYNC_COMMITTEE_PERIOD = 0 then
-    pure { s with current_sync_committee := s.next_sync_committee,
-                  next_sync_committee := some (← get_next_sync_committee cfg agg s) }
-  else pure s
+  -- `get_next_sync_committee(state)` is evaluated only at a period boundary
+  let computed ← if next_epoch % cfg.EPOCHS_PER_SYNC_COMMITTEE_PERIOD = 0
+    then some <$> get_next_sync_committee cfg agg s else pure none
+  let r := process_sync_committee_updates_pure cfg (get_current_epoch cfg s) s.current_sync_committee s.next_sync_committee computed
+  pure { s with current_sync_committee := r.1, next_sync_committee := r.2 }
 
 /-! ## process_epoch -/
 
